@@ -294,7 +294,7 @@ def inv_check(case):
 def ball_cases(tier, seed):
     for D in (4, 6, 9) if tier == "quick" else (4, 6, 8, 9, 12, 16):
         for direction in ("diag", "offdiag", "generic", "eig"):
-            for rel in (0.5, 0.9, 1.1, 2.0):
+            for rel in (0.5, 0.9, 1.0 + 1e-6, 1.0 + 1e-4, 1.1, 2.0):  # 1+1e-6 / 1+1e-4: just outside (after seeded change C15-5: isclose at the boundary)
                 for scale in (1.0, 2.5):
                     for form in ("matrix", "eigvec"):
                         if form == "eigvec" and direction in ("offdiag", "generic"):
@@ -339,6 +339,13 @@ def symext_cases(tier, seed):
             for level in (1, 2):
                 for ppt in (True, False):
                     yield {"dA": dA, "dB": dB, "idx": idx, "w": w, "level": level, "ppt": ppt}
+    # the two-qubit closed-form branch (level 2, ppt=False) on every single product term and every pair of terms, incl. pure product
+    # states whose second marginal is not diagonal (after seeded change C15-6: element-wise square of the marginal)
+    for k in (1, 2):
+        for idx in itertools.combinations(range(7), k):
+            for w in ((4,),) if k == 1 else ((1, 3), (2, 2)):
+                for form in ("list", "scalar", "omitted"):
+                    yield {"dA": 2, "dB": 2, "idx": list(idx), "w": list(w), "level": 2, "ppt": False, "dimform": form}
     big = [((2, 4), [0, 2], [1, 3]), ((3, 3), [0, 2], [1, 3]), ((3, 3), [1, 3, 5], [1, 2, 1])]
     if tier == "thorough":
         big += [((2, 4), [1, 3, 5], [1, 2, 1]), ((3, 3), [0, 1, 2, 4], [1, 1, 1, 1]), ((4, 2), [0, 5], [2, 2])]
@@ -353,7 +360,8 @@ def symext_check(case):
 
     dA, dB = case["dA"], case["dB"]
     rho = sep_state(dA, dB, case["idx"], case["w"])
-    got, exc = call(has_symmetric_extension, rho, case["level"], [dA, dB], case["ppt"])
+    dim_arg = {"list": [dA, dB], "scalar": dA, "omitted": None}[case.get("dimform", "list")]
+    got, exc = call(has_symmetric_extension, rho, case["level"], dim_arg, case["ppt"])
     if exc is not None:
         if isinstance(exc, ArithmeticError) or type(exc).__name__ in ("SolutionFailure", "SolverError"):
             return indet("solver did not return a solution: " + exc_text(exc))
